@@ -122,8 +122,9 @@ Proof.
   all: repeat match goal with |- context [N.testbit ?f ?i] =>
          let v := eval vm_compute in (N.testbit f i) in progress change (N.testbit f i) with v end.
   all: repeat match goal with |- context [N.eqb ?x ?y] =>
-         let v := eval vm_compute in (N.eqb x y) in
-         match v with true => idtac | false => idtac end; change (N.eqb x y) with v end.
+         lazymatch x with Npos _ => idtac | N0 => idtac end;
+         lazymatch y with Npos _ => idtac | N0 => idtac end;
+         let v := eval vm_compute in (N.eqb x y) in change (N.eqb x y) with v end.
   all: cbn [andb negb]; rewrite Hrg; cbn [negb].
   all: cbv beta iota zeta.
   all: try change (1 + 2 + 4) with 7; try change (0 + 2 + 4) with 6; try change (1 + 0 + 4) with 5; try change (0 + 0 + 4) with 4;
